@@ -346,13 +346,13 @@ def check_input_forms(ctx, repo, qual=NEW):
     symcls = Obj("symbolcls", call=lambda name, *a, **k: (seen.append(name), Val(str(name)))[1])
     c = f"{qual}#form:name"
     try:
-        out = it.run(NEW, [MVC, alg], {"name": "x", "keys": (4, 3), "symbolcls": symcls})
+        out = it.run(NEW, [MVC, alg], {"name": "x", "keys": (6, 1, 3), "symbolcls": symcls})
     except NoValue as exc:
         raise Unknown(c, str(exc), fn)
     got = pairs_of(out[1]) if out[0] == "return" else None
-    want = {4: "x3", 3: "x12"}
-    if got == want and tuple(out[1].attrs["_keys"]) != (4, 3):
-        ctx.violation(c, f"symbolic construction by name with keys (4, 3) stores the keys as {tuple(out[1].attrs['_keys'])}: the "
+    want = {6: "x23", 1: "x1", 3: "x12"}
+    if got == want and tuple(out[1].attrs["_keys"]) != (6, 1, 3):
+        ctx.violation(c, f"symbolic construction by name with keys (6, 1, 3) stores the keys as {tuple(out[1].attrs['_keys'])}: the "
                          f"symbolic operand of a cache miss no longer has the storage order of the key pattern it is "
                          f"generated for, so the generated function unpacks coefficients in another order than they are "
                          f"passed", fn)
